@@ -30,6 +30,7 @@ func init() {
 	core.RegisterMeta("C27", core.Meta{
 		Rule: "enumerated scenario table: server-credential scenarios (trusted, untrusted root, expired / not-yet-valid leaf, expired or missing intermediate, wrong name, SAN/IP names, Config.Time shifted both ways, flipped certificate signature, substituted key, flipped ServerKeyExchange/CertificateVerify signature, wire flips of ServerKeyExchange / Certificate, InsecureSkipVerify) " +
 			"x TLS1.0-1.3 x {RSA, ECDHE_RSA, ECDHE_ECDSA, DHE_RSA, TLS1.3} x key kinds; client-auth table: 5 ClientAuth modes x client credentials (none, trusted, untrusted, expired, wrong EKU, flipped certificate signature, substituted key, flipped CertificateVerify, wire flip) x versions x client key kinds; " +
+			"look-alike-chain family: presented chains containing look-alike intermediates / roots (subject and key identifiers of the genuine ones, other key; signed under the real root's name or self-signed) in every position, with and without the genuine intermediate, leaf signed by the genuine or the look-alike key, as server credential and as client credential (expectation = harness ground truth: some path verifies link by link up to the configured root); " +
 			"scripted-client family (internal/tlsscript, TLS 1.0-1.2, RSA and ECDHE): conforming and non-conforming client flights (Certificate omitted / empty / duplicated / after the ClientKeyExchange / unrequested, CertificateVerify omitted / corrupted / made with another key) x 5 ClientAuth modes x credential trusted/untrusted/none against the zcrypto server; " +
 			"server-name-forms family: ServerName as DNS name / mixed case / trailing dot / IPv4 / IPv6 / bracketed / expanded / IPv4-mapped / zoned literal x trusted leaves whose SANs cover it by DNS, by IP, cover only other names, DNS only, CN only (expectation from the C09 matching rules; open readings recorded); " +
 			"resumption family: connection 1 (config X, possibly InsecureSkipVerify, server trusted/untrusted/expired/misnamed/incomplete chain) fills a shared ClientSessionCache, connection 2 (Y = X.Clone() with verification on, optionally Config.Time past NotAfter or another ServerName) must not complete against a server that does not verify for Y, resumed or not; " +
@@ -264,6 +265,25 @@ func c27Table(c *core.Ctx) []c27Row {
 				}
 			}
 		}
+		// look-alike chains: same subject / key identifiers as the genuine intermediate or root, other key
+		for _, cell := range []c27Cell{
+			{v12, "ecdhe_ecdsa", 0xc02b, tlspair.P256}, {v13, "tls13", 0x1301, tlspair.P256}, {v12, "ecdhe_rsa", 0xc02f, tlspair.RSA2048}, {v13, "tls13", 0x1302, tlspair.RSA2048},
+			{v10, "ecdhe_ecdsa", 0xc009, tlspair.P256},
+		} {
+			for _, variant := range lookVariantNames {
+				for _, peer := range []string{"zz", "zg"} {
+					add(c27Row{Peer: peer, Vers: cell.vers, KX: cell.kx, Suite: cell.suite, Kind: cell.kind, Scenario: "lookalike_chain", Cred: variant})
+				}
+				for _, mode := range []string{"RequireAnyClientCert", "VerifyClientCertIfGiven", "RequireAndVerifyClientCert"} {
+					for _, peer := range []string{"zz", "gz"} {
+						if peer == "gz" && cell.vers < v12 {
+							continue
+						}
+						add(c27Row{Peer: peer, Vers: cell.vers, KX: cell.kx, Suite: cell.suite, Kind: cell.kind, Scenario: "lookalike_chain", Cred: variant, Mode: mode, CKind: tlspair.P256})
+					}
+				}
+			}
+		}
 		// scripted (possibly non-conforming) TLS <= 1.2 client against the zcrypto server
 		for _, cell := range []c27Cell{
 			{v10, "rsa", 0x002f, tlspair.RSA2048}, {v10, "ecdhe_rsa", 0xc013, tlspair.RSA2048}, {v10, "ecdhe_ecdsa", 0xc009, tlspair.P256},
@@ -342,6 +362,128 @@ func clientLeaf(cred, kind string) *tlspair.Leaf {
 		return e.BadSigClient[kind]
 	}
 	return nil
+}
+
+// ---- look-alike chains ----------------------------------------------------------
+
+func (row c27Row) runLookalike(c *core.Ctx) {
+	p := tlspair.Get()
+	now := tlspair.Now
+	clientAuth := row.Mode != ""
+	kind := row.Kind
+	if clientAuth {
+		kind = row.CKind
+	}
+	var lc *lookChain
+	for _, v := range lookalikeChains(kind, clientAuth) {
+		if v.Name == row.Cred {
+			vv := v
+			lc = &vv
+		}
+	}
+	if lc == nil {
+		return
+	}
+	suites := []uint16{row.Suite}
+	serverLeaf := p.Server[row.Kind]
+	if !clientAuth {
+		serverLeaf = lc.Leaf
+	}
+	mkZS := func() *ztls.Config {
+		zs := &ztls.Config{Time: func() time.Time { return now }, Rand: tlspair.NewDetRand(row.Seed ^ 0xabcdef), MinVersion: row.Vers, MaxVersion: row.Vers,
+			Certificates: []ztls.Certificate{serverLeaf.Z()}}
+		if row.Vers != v13 {
+			zs.CipherSuites = suites
+		}
+		if clientAuth {
+			zs.ClientAuth = authMode(row.Mode)
+			zs.ClientCAs = p.ZRoots()
+		}
+		return zs
+	}
+	mkZC := func() *ztls.Config {
+		cc := tlspair.BaseClient(row.Seed)
+		cc.MinVersion, cc.MaxVersion = row.Vers, row.Vers
+		if row.Vers != v13 {
+			cc.CipherSuites = suites
+		}
+		if clientAuth {
+			cert := lc.Leaf.Z()
+			cc.GetClientCertificate = func(*ztls.CertificateRequestInfo) (*ztls.Certificate, error) { return &cert, nil }
+		}
+		return cc
+	}
+	var res *tlspair.Result
+	switch row.Peer {
+	case "zz":
+		res = tlspair.RunZZ(mkZC(), mkZS(), guarded(tlspair.Options{}))
+	case "zg":
+		gs := &gotls.Config{Time: func() time.Time { return now }, Rand: tlspair.NewDetRand(row.Seed ^ 0xabcdef), MinVersion: row.Vers, MaxVersion: row.Vers,
+			Certificates: []gotls.Certificate{serverLeaf.Go()}}
+		if row.Vers != v13 {
+			gs.CipherSuites = suites
+		}
+		res = tlspair.RunZG(mkZC(), gs, guarded(tlspair.Options{}))
+	case "gz":
+		gc := tlspair.GoClient(row.Seed)
+		gc.MinVersion, gc.MaxVersion = row.Vers, row.Vers
+		if row.Vers != v13 {
+			gc.CipherSuites = suites
+		}
+		cert := lc.Leaf.Go()
+		gc.GetClientCertificate = func(*gotls.CertificateRequestInfo) (*gotls.Certificate, error) { return &cert, nil }
+		res = tlspair.RunGZ(gc, mkZS(), guarded(tlspair.Options{}))
+	}
+	defer res.Close()
+	cs, ss := clientSide(res), serverSide(res)
+	obs := map[string]any{"row": row, "chain_valid_by_ground_truth": lc.Valid, "client": cs.String(), "server": ss.String()}
+	var chainHex []string
+	for _, d := range lc.Leaf.Chain {
+		chainHex = append(chainHex, core.FullHex(d))
+	}
+	obs["presented_chain"] = chainHex
+	if reportPanics(c, res, row.ID, obs) {
+		return
+	}
+	if res.TimedOut {
+		noteWatchdog(c, "C27 "+row.ID)
+		return
+	}
+	c.Eval(1)
+	label := "lookalike_chain:" + row.Cred
+	if clientAuth {
+		label = "lookalike_chain:client_auth:" + row.Mode + ":" + row.Cred
+	}
+	cellKey := fmt.Sprintf("%s:%s:%s", row.Peer, vname(row.Vers), row.KX)
+	verifier, other, who := cs, ss, "client"
+	if clientAuth {
+		verifier, other, who = ss, cs, "server"
+	}
+	expectOK := lc.Valid || row.Mode == "RequireAnyClientCert" // RequireAnyClientCert does not verify the chain
+	outcome := "fail"
+	if verifier.OK && verifier.Complete {
+		outcome = "ok"
+	}
+	c.Count("outcome:"+label+":"+outcome, 1)
+	if expectOK {
+		if !(cs.OK && ss.OK && cs.Complete && ss.Complete) {
+			c.Violation(fmt.Sprintf("good_credentials_rejected:%s:%s:c=%s:s=%s", label, cellKey, normErr(cs.Err), normErr(ss.Err)),
+				fmt.Sprintf("every link of a path through the presented chain verifies up to the configured root (or the mode does not verify chains); client %v server %v", cs.Err, ss.Err), row.ID, obs)
+			return
+		}
+	} else {
+		if verifier.OK || verifier.Complete {
+			c.Violation(fmt.Sprintf("bad_credentials_accepted:%s:%s", label, cellKey),
+				fmt.Sprintf("the verifying %s completed although no path through the presented chain verifies link by link up to the configured root (other side: %v)", who, other.Err), row.ID, obs)
+			return
+		}
+		if !localError(verifier.Err) {
+			undecided(c, "refusal_not_raised_by_detector:"+label+":"+cellKey, fmt.Sprintf("%s error %v, peer error %v", who, verifier.Err, other.Err), row.ID, obs)
+			return
+		}
+	}
+	c.Nontrivial(row.sig())
+	c.Count("cell:"+cellKey, 1)
 }
 
 // ---- scripted client ---------------------------------------------------------
@@ -488,6 +630,17 @@ func (row c27Row) runScripted(c *core.Ctx) {
 	case so = <-done:
 	case <-time.After(40 * time.Second):
 		noteWatchdog(c, "C27 "+row.ID)
+		return
+	}
+	if serr != nil && !(expect == "fail" && so.err == nil && so.complete) {
+		// the script could not be carried out for a local reason (unsupported cell, unexpected server message):
+		// nothing was observed about the property, the case is not evaluated
+		if strings.Contains(serr.Error(), "not implemented") || strings.Contains(serr.Error(), "not usable") {
+			c.Count("script_unsupported", 1)
+		} else {
+			c.Count("script_error", 1)
+			c.Note("scripted client could not run row %s: %v", row.ID, serr)
+		}
 		return
 	}
 	c.Eval(1)
@@ -918,6 +1071,10 @@ func (row c27Row) runResume(c *core.Ctx) {
 func (row c27Row) run(c *core.Ctx) {
 	if row.Scenario == "resume_bypass" {
 		row.runResume(c)
+		return
+	}
+	if row.Scenario == "lookalike_chain" {
+		row.runLookalike(c)
 		return
 	}
 	if row.Scenario == "scripted_client" {
